@@ -141,14 +141,10 @@ func fmtErr(lang int, pos position, input []byte, msg bilingualMsg, char rune) e
 	// 上下文（如果有输入）
 	if len(input) > 0 {
 		sb.WriteString("  |\n")
-		line := getLineAtBytes(input, pos.line)
+		line, pointerPos := quoteLineAround(input, pos.line, pos.col)
 		sb.WriteString(fmt.Sprintf("  |  %s\n", line))
 
 		// 指示符
-		pointerPos := pos.col - 1
-		if pointerPos < 0 {
-			pointerPos = 0
-		}
 		pointer := strings.Repeat(" ", pointerPos) + "^"
 		sb.WriteString(fmt.Sprintf("  |  %s\n", pointer))
 		sb.WriteString("  |\n")
@@ -175,22 +171,65 @@ func fmtErr(lang int, pos position, input []byte, msg bilingualMsg, char rune) e
 	return errors.New(sb.String())
 }
 
+// quoteLineAround 返回用于展示的源码行以及指示符(^)在其中的位置(按字符计)。
+// 行太长时截取包含出错列的一段(按字符截取，不会切断多字节字符)，被省略的一侧用 ... 表示，
+// 这样指示符始终落在所展示文本中出错的那个字符下面
+func quoteLineAround(input []byte, line int, col int) (string, int) {
+	const maxWidth = 57
+	text := string(input)
+	lines := strings.Split(text, "\n")
+	if line > 0 && line <= len(lines) {
+		text = lines[line-1]
+	}
+	runes := []rune(text)
+	idx := col - 1
+	if idx < 0 {
+		idx = 0
+	}
+	if idx > len(runes) {
+		idx = len(runes)
+	}
+	if len(runes) <= 60 {
+		return string(runes), idx
+	}
+	start := 0
+	if idx > maxWidth-10 {
+		start = idx - (maxWidth - 10)
+	}
+	end := start + maxWidth
+	if end > len(runes) {
+		end = len(runes)
+	}
+	quoted := string(runes[start:end])
+	caret := idx - start
+	if start > 0 {
+		quoted = "..." + quoted
+		caret += 3
+	}
+	if end < len(runes) {
+		quoted += "..."
+	}
+	return quoted, caret
+}
+
 // getLineAtBytes 获取指定行的内容
 func getLineAtBytes(input []byte, line int) string {
-	lines := strings.Split(string(input), "\n")
-	if line > 0 && line <= len(lines) {
-		result := lines[line-1]
-		// 如果行太长，截取
+	truncate := func(result string) string {
+		// 如果行太长，截取(退到字符边界，避免切断多字节字符)
 		if len(result) > 60 {
-			result = result[:57] + "..."
+			cut := 57
+			for cut > 0 && !utf8.RuneStart(result[cut]) {
+				cut--
+			}
+			result = result[:cut] + "..."
 		}
 		return result
 	}
-	result := string(input)
-	if len(result) > 60 {
-		result = result[:57] + "..."
+	lines := strings.Split(string(input), "\n")
+	if line > 0 && line <= len(lines) {
+		return truncate(lines[line-1])
 	}
-	return result
+	return truncate(string(input))
 }
 
 // isValidStartChar 检查字符是否可以作为表达式的开头
